@@ -50,7 +50,7 @@ man = {
     "kind_free_text": "CrossHair symbolic execution (z3) of pure-Python string/dict code"}],
  "checks": checks,
  "not_applicable": na,
- "notes": "Solver-based checking of the real code; see DESIGN.md. Exit 0 = held / 1 = VIOLATION (replayed) / 2 = harness error.",
+ "notes": "Solver-based checking of the real code; see DESIGN.md. Exit 0 = held / 1 = VIOLATION (replayed) / 2 = harness error. Known findings and fixed defects: known_findings.json (committed, never written at run time). Seeded changes and which check catches them: seeded/RESULTS.md.",
 }
 json.dump(man, open(os.path.join(ROOT, "MANIFEST.json"), "w"), indent=1)
 print(len(checks), "checks;", len(na), "not applicable/unbuilt")
